@@ -121,7 +121,7 @@ func c04Check(c c04Case) error {
 			return bugf("constructive expected bytes %q differ from the reference decode %q for source %q", c.Exp, want[min(ti, len(want)-1)], clip(c.Src))
 		}
 	}
-	for _, cfg := range parseCfgs() {
+	for _, cfg := range parseCfgsSib(in) {
 		buf := append([]byte(nil), in...)
 		pj, err := parseWith(cfg, buf, false)
 		if c.Bad {
